@@ -3,7 +3,7 @@
    This file only closes statements with proved lemmas; the instance theorems are concrete histories
    (with the observations the implementation produced for them) re-evaluated inside Coq. *)
 From Coq Require Import List NArith.
-From Proto Require Import Broker Script ProofsBasic ProofsInstances.
+From Proto Require Import Broker Script ProofsBasic ProofsInstances Props ProofsStruct.
 Import ListNotations.
 Open Scope N_scope.
 
@@ -25,3 +25,8 @@ Theorem C11_accepted_outputs : forall bufsize br c authok b br' o rest,
   connect bufsize br c authok b = (br', o, CAccepted rest) -> exists sp, o = [OPkt c [32; 2; Codec.Wire.b2n sp; 0]].
 Proof. exact ProofsBasic.connect_accepted_outputs. Qed.
 Print Assumptions C11_accepted_outputs.
+
+(* the CONNACK code of every refused first packet is the one MQTT prescribes for the reason *)
+Theorem C11_codes : Props.C11_codes.
+Proof. exact ProofsStruct.codes. Qed.
+Print Assumptions C11_codes.
